@@ -241,6 +241,18 @@ Fixpoint table_parse (tb : def_table) (l : list N) : option (N * list styling) :
   | (k, v) :: r => if runes_eqb (runes_of k) l then v else table_parse r l
   end.
 
+(* the contract of parseStyleCharDef the theorems rely on, checked on every
+   observed table: the style character is one column wide, occurs in its
+   definition line, and "no-eol" is not a definition *)
+Definition entry_ok (e : bytes * option (N * list styling)) : bool :=
+  match snd e with
+  | None => true
+  | Some (c, _) =>
+    (of_rune c =? 1) && existsb (N.eqb c) (runes_of (fst e))
+    && negb (runes_eqb (runes_of (fst e)) no_eol)
+  end.
+Definition table_wf (tbl : def_table) : bool := forallb entry_ok tbl.
+
 Inductive sd_back := BackOk (r : res) | BackErr | BackNone.
 
 Definition text_eqb (a b : text) : bool := list_eqb seg_eqb a b.
@@ -286,9 +298,10 @@ Definition sd_judge1 (c : sd_case) : N :=
                  | None => true
                  | Some y => back_matches (render of_rune pd (runes_of y)) back
                  end in
-    code (check_round t markup back) (corr1 && corr2)
+    code (check_round t markup back) (table_wf tbl && corr1 && corr2)
   | SDParse markup tbl back =>
-    code (check_parse back) (back_matches (render of_rune (table_parse tbl) (runes_of markup)) back)
+    code (check_parse back)
+         (table_wf tbl && back_matches (render of_rune (table_parse tbl) (runes_of markup)) back)
   end.
 
 (* all C33 cases *)
